@@ -53,6 +53,10 @@ chk("C13", E1, "exploration",
     "Runs 0..454 enumerate all pairs and triples of 14 boundary identifiers (byte boundaries, 0, 0xFFFF); further runs sample the 16-bit range. Each case is a fault-free session (sync + KeyGen and/or Sign, scripted backend with rounds 0..127, or BLS with serialisation round trip and sign/verify) run twice under the same seed: with the drawn ids and with the order-isomorphic ids 1..n; outcome, hand-off counts and totality must agree.",
     "deterministic simulation, differential twin run (large ids vs order-isomorphic small ids)", "DESIGN.md §4 C13")
 
+chk("C20", E1, "exploration",
+    "The worker is compiled with the Go race detector (GORACE=halt_on_error). Scenarios: BLS/PS key generation with a deviating participant (early reveal, duplicates, late share, second commitment, withholding, malformed, none) and session histories (concurrent Sign on several topics, overlapping, cancelled, retried; KeyGen), loud and silent, all with concurrent dispatch: the simulator starts up to 4 deliveries into the same node in one step, each on its own goroutine, next to protocol goroutines and timers. A race report or panic kills the worker; the driver captures it, re-executes the seed (several attempts: the interleaving inside a step is the Go scheduler's) and writes the replay.",
+    "deterministic simulation with concurrent dispatch under the Go race detector", "DESIGN.md §4 C20",
+    note="Trusted: Go race detector (happens-before; reports only races of explored executions), the simulator. Interleavings inside one step are not controlled: a reported race reproduces with high probability, not certainty; absence of a report is sampling evidence only.")
 props = [json.loads(l)["id"] for l in open("/verif/properties.jsonl")]
 NA = {
  "C09": "pure functions of their arguments (verification verdicts): no schedule, clock, peer, fault or shared state for a simulator to control; see DESIGN.md §5",
